@@ -13,7 +13,7 @@ one() {
   WT=$(mktemp -d /tmp/pl-rf-XXXXXX)
   git -C /repo worktree add -f --detach "$WT" HEAD >/dev/null 2>&1
   if ! git -C "$WT" apply "$RDIR/$sid/patch.diff" 2>/dev/null; then echo "$sid PATCH-DOES-NOT-APPLY"; else
-    out=$(/verif/bin/pikelint -repo "$WT" -property all -no-evidence -verif /verif 2>&1)
+    out=$("${PIKELINT:-/verif/bin/pikelint}" -repo "$WT" -property all -no-evidence -verif /verif 2>&1)
     fired=$(echo "$out" | grep -E "^  (VIOLATED|UNDECIDED)" | awk '{print $1":"$2}' | sort -u | tr '\n' ' ')
     if echo "$out" | grep -q "internal error\|load error\|pikelint:.*error"; then echo "$sid CHECKER-ERROR :: $(echo "$out" | grep -m1 error)";
     elif [ -n "$fired" ]; then echo "$sid FALSE-ALARM :: $fired"; else echo "$sid silent"; fi
